@@ -5,23 +5,27 @@ from areas import mem
 PROP = "C05"
 
 
+def _closure(chk, c_exe, m_exe, alphabet, max_depth, max_states):
+    """vlib.closure, but a run that was cut off by the state cap does not count as closed"""
+    before = chk.stats["states"]
+    closed = vlib.closure(chk, mem.NAME, c_exe, m_exe, [], alphabet, max_depth=max_depth,
+                          max_states=max_states, oracle=mem.oracle, state_of=mem.canon_state)
+    return bool(closed) and chk.stats["states"] - before <= max_states
+
+
 def run(chk):
     c_exe, m_exe = vlib.prepare_area(chk, mem, leanchecker=True)
     if c_exe:
         vlib.run_scripts(chk, mem, c_exe, m_exe, mem.corpus(PROP), mem.oracle)
         quick = chk.tier == "quick"
         # closure 1: shared + weak objects, two allocations
-        closed1 = vlib.closure(chk, mem.NAME, c_exe, m_exe, [], mem.c05_alphabet(3, 2, 0, 2, rich=True),
-                               max_depth=12 if quick else 16, max_states=200000, oracle=mem.oracle,
-                               state_of=mem.canon_state)
+        closed1 = _closure(chk, c_exe, m_exe, mem.c05_alphabet(3, 2, 0, 2, rich=True), 12 if quick else 16, 200000)
         # closure 2: unique pointers
-        closed2 = vlib.closure(chk, mem.NAME, c_exe, m_exe, [], mem.c05_alphabet(0, 0, 2, 0, rich=True),
-                               max_depth=10, max_states=100000, oracle=mem.oracle, state_of=mem.canon_state)
+        closed2 = _closure(chk, c_exe, m_exe, mem.c05_alphabet(0, 0, 2, 0, rich=True), 10, 100000)
         closed3 = True
         if not quick:
             # closure 3: everything together (3 shared + 2 weak + 2 unique, 2 allocations)
-            closed3 = vlib.closure(chk, mem.NAME, c_exe, m_exe, [], mem.c05_alphabet(3, 2, 2, 2, rich=False),
-                                   max_depth=14, max_states=60000, oracle=mem.oracle, state_of=mem.canon_state)
+            closed3 = _closure(chk, c_exe, m_exe, mem.c05_alphabet(3, 2, 2, 2, rich=False), 14, 60000)
         chk.exhaustive = bool(closed1 and closed2 and closed3)
         chk.extra["scope"] = ("closure over canonical states (block ids renamed): 3 shared + 2 weak objects with at most "
                               "2 live allocations (alloc ok / bookkeeping malloc fails / memory malloc fails / size 0, "
